@@ -159,9 +159,10 @@ func (w *cwalk) walk(n *cnode) {
 }
 
 type crender struct {
-	c        *cgen
-	failSite int
-	kind     string
+	c         *cgen
+	failSite  int
+	kind      string
+	failCount int // kinds core:*: which dynamic execution of failSite fails
 }
 
 func (r *crender) site(id int) string {
@@ -179,6 +180,11 @@ func (r *crender) site(id int) string {
 			return "(let)"
 		case "macroexp":
 			return fmt.Sprintf("(mfail %d)", id)
+		case "core:undef", "core:arity", "core:typeerr":
+			// core-language ops (ch_contain_core.go): a counter global tells the dynamic
+			// executions of the site apart; the failCount-th one fails
+			fail := map[string]string{"core:undef": "undefined_symbol_zz", "core:arity": "(farity 1 2)", "core:typeerr": "(+ 1 \"a\")"}[r.kind]
+			return fmt.Sprintf("(begin (set cnt (+ cnt 1)) (cond (== cnt %d) %s (boom %d)))", r.failCount, fail, id)
 		}
 	}
 	return fmt.Sprintf("(boom %d)", id)
@@ -580,6 +586,7 @@ func containGen(g *Gen) {
 		}
 		emit("parse", cevent{0, 0})
 	}
+	containCoreGen(g)
 }
 
 var containFollowups = []string{
@@ -648,6 +655,9 @@ func containExec(toks []string) string {
 	if len(toks) != 7 {
 		return "bad-op"
 	}
+	if toks[0] == "core" {
+		return containCoreExec(toks)
+	}
 	kind := toks[0]
 	site, _ := strconv.Atoi(toks[1])
 	count, _ := strconv.Atoi(toks[2])
@@ -677,6 +687,10 @@ func containExec(toks []string) string {
 	after := depthStr(a.env)
 	if !a.env.VerifAtEnd() {
 		return "BROKEN pc/curfunc not at end of main after the evaluation"
+	}
+	if b := a.env.VerifScopeBottom(); b != "global" {
+		// sizes alone (restore_depths) do not see this: TruncateToSize GROWS a stack with nil cells
+		return "BROKEN bottom of the scope stack after the evaluation is " + b + ", not the global scope"
 	}
 	a.failSite = 0
 
